@@ -54,7 +54,9 @@ RecRow == /\ mode = "rec" /\ vst = "row" /\ vst' = "printed"
           /\ PrintT(ToJson([k |-> "rec", z |-> vz, r |-> vd,
                             rows |-> [s \in 1..(N - 1) |->
                                        [must0 |-> Recover(vz, vd, s, 0), must1 |-> Recover(vz, vd, s, 1),
-                                        may |-> RecoverAll(vz, vd, s)]]]))
+                                        may |-> RecoverAll(vz, vd, s)]],
+                            \* s outside [1, n-1]: no key verifies such a signature, so nothing may be recovered from it
+                            outs |-> {<<s, VerifyingKeys(vz, vd, s)>> : s \in {0 - 1, 0, N, N + 1, 2 * N - 1}}]))
 
 Next == TryNonce \/ RetryIncrementNonce \/ Return \/ VerRow \/ RecRow
 Spec == Init /\ [][Next]_vars
